@@ -280,7 +280,7 @@ func replayFinding(cfg CheckCfg, r HarnessResult, f Finding, modelPath string) s
 	}()
 	%s()
 }
-`, r.Name)
+`, harnessFunc(r))
 	put(filepath.Join(pkgdir, "zz_verif_replay_test.go"), g.Bytes())
 	ovj, _ := json.Marshal(map[string]interface{}{"Replace": overlay})
 	ovPath := filepath.Join(tmp, "overlay.json")
@@ -402,4 +402,11 @@ func relocateLine(file string, src []byte, fn *ssa.Function) int {
 		return fs.Position(fd.Name.Pos()).Line
 	}
 	return -1
+}
+
+func harnessFunc(r HarnessResult) string {
+	if r.Func != "" {
+		return r.Func
+	}
+	return r.Name
 }
